@@ -234,10 +234,11 @@ func runC28(r *Run) {
 				results = append(results, result{"Unmarshal" + strings.ToUpper(dc.format) + "(reader)", valueText(v), okText(err)})
 				v, err = ce.UnmarshalCE(mk(), nil, cfg)
 				results = append(results, result{"UnmarshalCE(reader)", valueText(v), okText(err)})
-				// a document with local references does not unmarshal to the same untyped value twice even
-				// from memory (Go's map iteration order decides which slot a reference fills: finding
-				// C06/local-reference), so the untyped values are not compared for those; the events always are
-				orderDependent := strings.Contains(refEvs, "ref:")
+				// a document with a local reference in map-key position does not unmarshal to the same untyped
+				// value twice even from memory (Go's map iteration order decides which slot the reference
+				// fills: finding C06/local-reference:ref-as-key), so the untyped values are not compared for
+				// those; the events always are
+				orderDependent := refInKeyPosition(rec.Evs)
 				if orderDependent {
 					r.out.Count("value-not-compared:local-reference")
 				}
